@@ -154,9 +154,10 @@ impl U64Segment {
         let n_holes = stats.n_holes();
         let total_slots = stats.max - stats.min + 1;
 
-        let range_with_holes = 24 + 4 * n_holes as usize;
-        let range_with_bitmap = 24 + (total_slots as f64 / 8.0).ceil() as usize;
-        let sorted_array = 24 + 2 * stats.count as usize;
+        // Saturate: very sparse sequences have close to u64::MAX holes.
+        let range_with_holes = 24_usize.saturating_add((n_holes as usize).saturating_mul(4));
+        let range_with_bitmap = 24_usize.saturating_add((total_slots as f64 / 8.0).ceil() as usize);
+        let sorted_array = 24_usize.saturating_add((stats.count as usize).saturating_mul(2));
 
         [range_with_holes, range_with_bitmap, sorted_array]
     }
